@@ -168,15 +168,22 @@ class Project(object):
         return os.path.join(self.root, *parts)
 
     def write_app(self, app, version_models, evolutions, nv=None,
-                  init_extra=''):
+                  init_extra='', pkg=None):
         """version_models: [models dict at V0, V1, ...];
         evolutions: [(label, [mutation text], deps dict)];
-        nv: [number of evolutions visible at version i]."""
-        d = self.path(app)
+        nv: [number of evolutions visible at version i];
+        pkg: python package of the app when it differs from its label (an
+        AppConfig with label=app is written; INSTALLED_APPS lists pkg)."""
+        d = self.path(pkg or app)
         os.makedirs(os.path.join(d, 'evolutions'), exist_ok=True)
         open(os.path.join(d, '__init__.py'), 'w').close()
+        if pkg:
+            with open(os.path.join(d, 'apps.py'), 'w') as f:
+                f.write('from django.apps import AppConfig\n\n\n'
+                        'class Cfg(AppConfig):\n'
+                        '    name = %r\n    label = %r\n' % (pkg, app))
         with open(os.path.join(d, 'models.py'), 'w') as f:
-            f.write(MODELS_PY % {'app': app, 'APP': app.upper()})
+            f.write(MODELS_PY % {'app': pkg or app, 'APP': app.upper()})
         for i, mods in enumerate(version_models):
             with open(os.path.join(d, 'models_v%d.py' % i), 'w') as f:
                 f.write(models_source(app, mods))
@@ -190,8 +197,8 @@ class Project(object):
         for label, texts, deps in evolutions:
             with open(os.path.join(d, 'evolutions', label + '.py'), 'w') as f:
                 f.write(evolution_source(texts, deps))
-        if app not in self.apps:
-            self.apps.append(app)
+        if (pkg or app) not in self.apps:
+            self.apps.append(pkg or app)
 
     def write_mig_app(self, app, n, cross_deps=None):
         """An app managed by Django migrations only: model M with fields
